@@ -65,6 +65,25 @@ pub fn on_node_thread<T: Send + 'static>(hash_seed: u64, f: impl FnOnce() -> T +
   }
 }
 
+/// Like `on_node_thread`, with a wall-clock deadline: Err(None) if `f` has not returned after
+/// `secs` (the thread cannot be reclaimed; the caller must arrange for the process to end soon).
+pub fn on_node_thread_deadline<T: Send + 'static>(hash_seed: u64, secs: u64, f: impl FnOnce() -> T + Send + 'static) -> Result<T, Option<String>> {
+  let (tx, rx) = std::sync::mpsc::channel();
+  std::thread::Builder::new()
+    .stack_size(NODE_STACK)
+    .spawn(move || {
+      set_thread_hash_seed(hash_seed);
+      let r = std::panic::catch_unwind(std::panic::AssertUnwindSafe(f));
+      tx.send(r.map_err(|e| panic_message(&e))).ok();
+    })
+    .expect("spawn node thread");
+  match rx.recv_timeout(std::time::Duration::from_secs(secs)) {
+    Ok(Ok(v)) => Ok(v),
+    Ok(Err(m)) => Err(Some(m)),
+    Err(_) => Err(None),
+  }
+}
+
 pub fn panic_message(e: &Box<dyn std::any::Any + Send>) -> String {
   if let Some(s) = e.downcast_ref::<&'static str>() {
     s.to_string()
